@@ -624,3 +624,15 @@ fn u7_downgrade_of_dead_object_counts() {
     kani::assert(d2.ptr == a.ptr && a.inner().weak() == w + 2 && a.inner().strong() == s, "U7.weak_clone_dead.weak_plus_one_only");
     core::mem::forget((d, d2, a));
 }
+
+/// comparison forwarders with a payload whose equality is not reflexive (f32 NaN) and two handles to
+/// the SAME allocation: the result is the values' comparison, never pointer identity
+#[kani::proof]
+fn u8_comparisons_same_allocation_partial_eq() {
+    let x: f32 = kani::any();
+    let a = Rc::new(x);
+    let a2 = alias(&a);
+    kani::assert((a == a2) == (x == x) && (a != a2) == (x != x), "U8.eq.same_allocation_still_compares_values");
+    kani::assert(a.partial_cmp(&a2) == x.partial_cmp(&x), "U8.partial_cmp.same_allocation_still_compares_values");
+    core::mem::forget((a, a2));
+}
